@@ -71,6 +71,7 @@ fn ordered_selections(n: usize, k: usize) -> Vec<Vec<usize>> {
 fn check_answers<T: LabelType>(
     kind: &str,
     labels: &[T],
+    make_big: &dyn Fn(usize) -> Vec<T>,
     writer: &dyn ResponseWriter<T>,
     render: &dyn Fn(&[String]) -> String,
     parse: &dyn Fn(&str) -> Option<Vec<String>>,
@@ -115,6 +116,29 @@ fn check_answers<T: LabelType>(
                         fail("extension_parse_back", format!("{:?} parses back to {:?}", text, parse(&text)), rep);
                     }
                 }
+            }
+        }
+    }
+    // large extensions (buffers, separators at scale): the first k arguments of a 3000-argument framework
+    {
+        let big_labels: Vec<T> = make_big(3000);
+        let af = AAFramework::new_with_argument_set(ArgumentSet::new_with_labels(&big_labels));
+        let args: Vec<&Argument<T>> = af.argument_set().iter().collect();
+        for k in [10usize, 100, 1000, 1365, 1366, 1400, 2048, 3000] {
+            let ext: Vec<&Argument<T>> = args[..k].to_vec();
+            let names: Vec<String> = ext.iter().map(|a| a.label().to_string()).collect();
+            let mut buf = vec![];
+            *n_checked += 1;
+            let ok = writer.write_single_extension(&mut buf, &ext).is_ok();
+            let text = String::from_utf8_lossy(&buf).to_string();
+            if !ok || text != render(&names) || parse(&text).as_ref() != Some(&names) {
+                let got = parse(&text).map(|v| v.len());
+                rep.add_violation(Violation {
+                    property: "C14".into(),
+                    key: format!("writer={};what=large_extension", kind),
+                    message: format!("{} writer, extension of {} arguments: output ({} bytes) is not the rendering of the answer grammar / reads back to {:?} labels", kind, k, text.len(), got),
+                    case: json!({"engine": "writer", "writer": kind, "large_extension": k}),
+                });
             }
         }
     }
@@ -182,6 +206,7 @@ pub fn run(tier: Tier) -> i32 {
     check_answers(
         "aspartix",
         &slabels,
+        &|n| (0..n).map(|i| format!("arg{}", i)).collect(),
         &AspartixWriter::default(),
         &|names| format!("[{}]\n", names.join(",")),
         &|text| {
@@ -195,6 +220,7 @@ pub fn run(tier: Tier) -> i32 {
     check_answers(
         "iccma23",
         &ulabels,
+        &|n| (1..=n).collect(),
         &Iccma23Writer::default(),
         &|names| format!("w{}\n", names.iter().map(|n| format!(" {}", n)).collect::<String>()),
         &|text| {
